@@ -7,6 +7,7 @@ import LiquidModel.Drv.C07
 import LiquidModel.Drv.C18
 import LiquidModel.Drv.C16
 import LiquidModel.Drv.C15
+import LiquidModel.Drv.C11
 namespace Liquid.Drv
 
 /-- op name ↦ handler; each `Drv/*.lean` contributes its ops here. -/
@@ -26,6 +27,7 @@ def dispatch (op : String) : Option (List String → String) :=
   | "c16fold" => some c16FoldOp
   | "c16f" => some c16FilterOp
   | "c15" => some c15Op
+  | "c11" => some c11Op
   | _ => none
 
 end Liquid.Drv
